@@ -2,7 +2,12 @@
 proof: Coq theorems over the hand-written models Cola/NonOverlapModel.v (addShape/addCluster bookkeeping and the pair loop of
 NonOverlapConstraints::generateSeparationConstraints) and Cola/ContainmentModel.v (ClusterContainmentConstraints);
 tie C: the extracted models are compared exactly with the compiled classes driven directly on random rectangle sets, groups,
-exemptions and clusters; V: extracted checkers on makeFeasible()+run() results with overlap avoidance and cluster hierarchies."""
+exemptions and clusters, and the solver-variable index layout of one dimension (Cola/VarLayoutModel.v: rectangles, cluster boundary
+variables children-first, root pair, then the user constraints' variables; proofs in Cola/VarLayout.v) is compared by creator tag with
+what setupVarsAndConstraints / recGenerateClusterVariablesAndConstraints really build (harness mode `vars`);
+V: extracted checkers on makeFeasible()+run() results with overlap avoidance and cluster hierarchies, including the family
+'clusters+cc' (hierarchies with padding/margins combined with user alignments / separations / distributions in both dimensions that
+admit a non-overlapping layout - witnessed by construction)."""
 import os, json, math
 from fractions import Fraction
 from vlib import common as C
@@ -177,6 +182,61 @@ def correspondence(rng, ncases, cpp, ml):
     return cases, diffs, hist, ntriv, samples
 
 
+# ----------------------------------------------------------------------------------------------- variable layout (C)
+def parse_vars_line(line):
+    t = line.split()
+    if not t or t[0] not in ('V', 'U', 'K') or len(t) < 2 or not t[1].lstrip('-').isdigit():
+        return ('BAD', line.strip())
+    m = int(t[1])
+    if t[0] == 'V':
+        return ('V', t[2:])                                   # exact order: it IS the index layout
+    w = 4 if t[0] == 'U' else 3
+    body = t[2:]
+    if len(body) != w * m:
+        return ('BAD', line.strip())
+    rows = []
+    for k in range(m):
+        r = body[w * k:w * k + w]
+        rows.append((r[0], r[1], fr(r[2])) + ((int(r[3]),) if w == 4 else ()))
+    return (t[0], sorted(rows))
+
+
+def varlayout_correspondence(cases, cpp, ml):
+    """exact correspondence for the solver-variable index layout of one dimension (Cola/VarLayoutModel.v vs colafd.cpp
+    setupVarsAndConstraints / recGenerateClusterVariablesAndConstraints / Cluster::createVars): who created each variable, and
+    which variables (by creator) the user constraints and the stored-id cluster containment constraints end up on."""
+    lines = [layout_line(c) for c in cases]
+    stats = {'cases': len(cases), 'lines_compared': 0, 'hierarchy_and_cc_variables_in_both_dims': 0, 'disagreements': 0}
+    diffs = []
+    if not cases:
+        return diffs, stats
+    rc1, o1, e1, _ = C.sh([cpp, 'vars'], input='\n'.join(lines) + '\n', timeout=900)
+    rc2, o2, e2, _ = C.sh([ml, 'vars'], input='\n'.join(lines) + '\n', timeout=900)
+    o1 = [l for l in o1.split('\n') if l.strip()]
+    o2 = [l for l in o2.split('\n') if l.strip()]
+    if rc1 != 0 or rc2 != 0 or len(o1) != 6 * len(cases) or len(o2) != 6 * len(cases):
+        diffs.append({'what': 'variable-layout harness or model driver failed', 'rc_cpp': rc1, 'rc_model': rc2, 'stderr_cpp': e1[-1500:],
+                      'stderr_model': e2[-1500:], 'lines_cpp': len(o1), 'lines_model': len(o2), 'expected_lines': 6 * len(cases)})
+        stats['disagreements'] = 1
+        return diffs, stats
+    for i, c in enumerate(cases):
+        both = 0
+        for j in range(6):
+            a, b = parse_vars_line(o1[6 * i + j]), parse_vars_line(o2[6 * i + j])
+            stats['lines_compared'] += 1
+            if a[0] == 'V' and c['clusters'] and any(x.startswith('A') for x in a[1]):
+                both += 1
+            if a != b:
+                diffs.append({'what': 'variable index layout / constraint endpoints differ between colafd.cpp (setupVarsAndConstraints, stored cluster '
+                                      'variable ids) and the model (VarLayoutModel.v)', 'dim': 'XY'[j // 3], 'line': 'VUK'[j % 3],
+                              'implementation': o1[6 * i + j][:600], 'model': o2[6 * i + j][:600], 'case': c,
+                              'replay': 'echo "%s" | <c08_no harness> vars' % lines[i]})
+        if both == 2:
+            stats['hierarchy_and_cc_variables_in_both_dims'] += 1
+    stats['disagreements'] = len(diffs)
+    return diffs, stats
+
+
 # ----------------------------------------------------------------------------------------------- layouts (V)
 def gen_layout(rng, idx):
     n = rng.range(3, 9)
@@ -240,6 +300,173 @@ def gen_layout(rng, idx):
             'ideal': rng.choice([40, 60, 100]) * 16, 'mode': 0, 'kind': kind}
 
 
+def cluster_witness(c, rng=None):
+    """a non-overlapping layout consistent with the cluster hierarchy (padding, margins): every cluster lays its items (own nodes
+    and child clusters) out on a uniform grid, nodes centred in their cells.  Returns node -> (wx, wy) in units of 1/16 (integers).
+    It is the witness that the user constraints derived from it (gen_cluster_cc) admit a non-overlapping layout."""
+    n, cls = c['n'], c['clusters']
+    size = [((r[1] - r[0]), (r[3] - r[2])) for r in c['rects']]
+    inside = set(v for cl in cls for v in cl['nodes'])
+    root_nodes = [v for v in range(n) if v not in inside]
+
+    def lay(nodes, kids, pad):
+        items = [('n', v) for v in nodes] + [('c', k) for k in kids]
+        if rng is not None:
+            items = rng.shuffle(items)
+        sub = {}
+        ext = []
+        for t, x in items:
+            if t == 'n':
+                ext.append(size[x])
+            else:
+                sub[x] = lay(cls[x]['nodes'], [j for j, cl in enumerate(cls) if cl['parent'] == x], cls[x]['padding'][0])
+                m = cls[x]['margin'][0]
+                ext.append((sub[x][0] + 2 * m, sub[x][1] + 2 * m))
+        gap = 64
+        cw = max([e[0] for e in ext] + [32]) + gap
+        ch = max([e[1] for e in ext] + [32]) + gap
+        cw += cw % 32; ch += ch % 32
+        cw += (32 - cw % 32) % 32; ch += (32 - ch % 32) % 32
+        ncols = 1
+        while ncols * ncols < len(items):
+            ncols += 1
+        pos = {}
+        for i, (t, x) in enumerate(items):
+            cx, cy = pad + (i % ncols) * cw + cw // 2, pad + (i // ncols) * ch + ch // 2
+            if t == 'n':
+                pos[x] = (cx, cy)
+            else:
+                W, H, sp = sub[x]
+                for v, (px, py) in sp.items():
+                    pos[v] = (cx - W // 2 + px, cy - H // 2 + py)
+        nrows = (len(items) + ncols - 1) // ncols
+        W, H = 2 * pad + ncols * cw, 2 * pad + max(1, nrows) * ch
+        W += W % 2; H += H % 2
+        return W, H, pos
+    W, H, pos = lay(root_nodes, [j for j, cl in enumerate(cls) if cl['parent'] == -1], 0)
+    return pos
+
+
+def gen_cluster_cc(rng, idx):
+    """family 'clusters+cc' (the property's quantifier: cluster hierarchies with padding/margins COMBINED with user constraints that
+    admit a non-overlapping layout): sibling / nested rectangular clusters plus root-level nodes, and user alignments (with and
+    without offsets), separations, distributions and multi-separations in BOTH dimensions, all derived from a witness layout
+    (cluster_witness) that is non-overlapping and respects the hierarchy - so the constraints admit such a layout."""
+    n = rng.range(6, 11)
+    shape = rng.choice(['siblings', 'siblings', 'nested', 'siblings+nested', 'three'])
+    nodes = rng.shuffle(list(range(n)))
+    if rng.chance(1, 2):
+        nodes = list(range(n))                   # clusters own the low ids (as in typical client code)
+    def take(k):
+        nonlocal nodes
+        k = min(k, max(0, len(nodes) - 2))      # keep at least two root-level nodes
+        t, nodes = nodes[:k], nodes[k:]
+        return sorted(t)
+    def box():
+        v = rng.choice([0, 32, 80, 80, 160])
+        return [v] * 4
+    clusters = []
+    ntop = {'siblings': 2, 'nested': 1, 'siblings+nested': 2, 'three': 3}[shape]
+    for k in range(ntop):
+        clusters.append({'parent': -1, 'padding': box(), 'margin': box(), 'nodes': take(rng.range(1, 3))})
+    if shape in ('nested', 'siblings+nested'):
+        clusters.append({'parent': 0, 'padding': box(), 'margin': box(), 'nodes': take(rng.range(1, 2))})
+        if rng.chance(1, 3):
+            clusters.append({'parent': rng.choice([0, len(clusters) - 1]), 'padding': box(), 'margin': box(), 'nodes': take(rng.range(1, 2))})
+    # a cluster without nodes and without a child that has nodes is dropped (keeping parent indices valid: only trailing ones)
+    while clusters and not clusters[-1]['nodes']:
+        clusters.pop()
+    for cl in clusters:
+        if not cl['nodes'] and not any(c2['parent'] == clusters.index(cl) for c2 in clusters):
+            cl['nodes'] = take(1)
+    rects = []
+    for i in range(n):
+        w, h = rng.range(2, 10) * 32, rng.range(2, 10) * 32
+        rects.append([0, w, 0, h])
+    c = {'n': n, 'rects': rects, 'groups': [], 'clusters': clusters, 'kind': 'clusters+cc', 'shape': shape}
+    wit = cluster_witness(c, rng)
+    W = [wit[v] for v in range(n)]
+    # ---- user constraints that hold on the witness
+    ccs = []
+    kinds = []
+    aligns = {0: [], 1: []}                 # (position in ccs, witness line position)
+    def add_alignment(d, grp, zero):
+        base = W[grp[0]][d]
+        sh = [[v, 0 if zero else W[v][d] - base] for v in grp]
+        aligns[d].append((len(ccs), base))
+        ccs.append({'code': 3, 'd': d, 'pos': 0, 'fixed': False, 'sh': sh})
+    want = rng.range(2, 6)
+    both = rng.chance(4, 5)                 # variables in both dimensions (most cases)
+    for t in range(want):
+        d = t % 2 if both and t < 2 else rng.below(2)
+        k = rng.choice(['align0', 'align0', 'alignoff', 'sep', 'sep', 'dist', 'msep', 'asep'])
+        if t < 2 and both:
+            k = rng.choice(['align0', 'align0', 'alignoff'])
+        if k == 'align0':
+            # nodes sharing the witness coordinate in d (same grid row / column)
+            byc = {}
+            for v in range(n):
+                byc.setdefault(W[v][d], []).append(v)
+            cands = [g for g in byc.values() if len(g) >= 2]
+            if cands:
+                g = rng.shuffle(rng.choice(cands))[:rng.range(2, 3)]
+                add_alignment(d, sorted(g), True); kinds.append(k)
+            else:
+                add_alignment(d, [rng.below(n)], True); kinds.append('align1')
+        elif k == 'alignoff':
+            a = rng.below(n); b = (a + 1 + rng.below(n - 1)) % n
+            add_alignment(d, [a, b], False); kinds.append(k)
+        elif k == 'sep':
+            a = rng.below(n); b = (a + 1 + rng.below(n - 1)) % n
+            if W[a][d] > W[b][d]:
+                a, b = b, a
+            diff = (W[b][d] - W[a][d]) // 16
+            ccs.append({'code': 1, 'd': d, 'l': a, 'r': b, 'g': rng.range(0, diff) * 16, 'e': False}); kinds.append(k)
+        elif k in ('dist', 'msep', 'asep'):
+            # alignments on (up to) three equally spaced witness lines: single-node alignments on grid columns / rows
+            lines = sorted(set(W[v][d] for v in range(n)))
+            trip = [(p, q, r) for p in lines for q in lines for r in lines if p < q < r and q - p == r - q]
+            if k == 'dist' and trip:
+                p, q, r = rng.choice(trip)
+                ids = []
+                for x in (p, q, r):
+                    add_alignment(d, [rng.choice([v for v in range(n) if W[v][d] == x])], True); ids.append(len(ccs) - 1)
+                ccs.append({'code': 5, 'd': d, 'sep': q - p, 'prs': [[ids[0], ids[1]], [ids[1], ids[2]]]}); kinds.append(k)
+            elif len(lines) >= 2:
+                p, q = sorted(rng.shuffle(lines)[:2])
+                ids = []
+                for x in (p, q):
+                    add_alignment(d, [rng.choice([v for v in range(n) if W[v][d] == x])], True); ids.append(len(ccs) - 1)
+                g = rng.range(0, (q - p) // 16) * 16
+                if k == 'asep':
+                    ccs.append({'code': 2, 'd': d, 'la': ids[0], 'ra': ids[1], 'g': g, 'e': False})
+                else:
+                    ccs.append({'code': 6, 'd': d, 'sep': g, 'e': False, 'prs': [[ids[0], ids[1]]]})
+                kinds.append(k)
+    # ---- initial placement
+    start = rng.choice(['piled', 'piled', 'witness-jitter', 'random'])
+    for i in range(n):
+        w, h = rects[i][1], rects[i][3]
+        if start == 'piled':
+            cx, cy = rng.range(-10, 10) * 16, rng.range(-10, 10) * 16
+        elif start == 'witness-jitter':
+            cx, cy = W[i][0] + rng.range(-20, 20) * 16, W[i][1] + rng.range(-20, 20) * 16
+        else:
+            cx, cy = rng.range(0, 80) * 16, rng.range(0, 80) * 16
+        rects[i] = [cx - w // 2, cx + w // 2, cy - h // 2, cy + h // 2]
+    edges = []
+    for v in range(1, n):
+        if rng.chance(4, 5):
+            edges.append([rng.below(v), v])
+    for _ in range(rng.below(4)):
+        a, b = rng.below(n), rng.below(n)
+        if a != b:
+            edges.append([a, b])
+    c.update({'ccs': ccs, 'edges': edges, 'ideal': rng.choice([30, 40, 60, 100]) * 16, 'mode': 0, 'start': start, 'cc_kinds': kinds,
+              'witness_centres_16ths': W})
+    return c
+
+
 def layout_line(c):
     t = [c['n']] + [v for r in c['rects'] for v in r]
     t.append(len(c['groups']))
@@ -252,6 +479,12 @@ def layout_line(c):
     for cc in c['ccs']:
         if cc['code'] == 1:
             t += [1, cc['d'], cc['l'], cc['r'], cc['g'], int(cc['e'])]
+        elif cc['code'] == 2:
+            t += [2, cc['d'], cc['la'], cc['ra'], cc['g'], int(cc['e'])]
+        elif cc['code'] == 5:
+            t += [5, cc['d'], cc['sep'], len(cc['prs'])] + [v for ab in cc['prs'] for v in ab]
+        elif cc['code'] == 6:
+            t += [6, cc['d'], cc['sep'], int(cc['e']), len(cc['prs'])] + [v for ab in cc['prs'] for v in ab]
         else:
             t += [3, cc['d'], cc['pos'], int(cc['fixed']), len(cc['sh'])] + [v for so in cc['sh'] for v in so]
     t += [len(c['edges'])] + [v for e in c['edges'] for v in e] + [c['ideal'], c['mode']]
@@ -310,8 +543,10 @@ def obligations(c):
     return pairs, boxes
 
 
-def layouts(rng, ncases, cpp, ml):
+def layouts(rng, ncases, cpp, ml, ncc=0):
     cases = [gen_layout(rng.fork(), i) for i in range(ncases)]
+    rr = rng.fork()
+    cases += [gen_cluster_cc(rr.fork(), i) for i in range(ncc)]
     for f in sorted(os.listdir(os.path.join(C.VERIF, 'corpus'))):
         if f.startswith('c08_layout_') and f.endswith('.json'):
             cases.insert(0, json.load(open(os.path.join(C.VERIF, 'corpus', f))))
@@ -354,6 +589,16 @@ def layouts(rng, ncases, cpp, ml):
         stats['in_domain'] += 1
         if c['clusters']:
             stats['with_clusters'] += 1
+        if c['kind'] == 'clusters+cc':
+            fam = stats.setdefault('clusters_cc_family', {'in_domain': 0, 'by_shape': {}, 'by_start': {}, 'by_constraint_kind': {},
+                                                          'alignment_variables_in_both_dims': 0})
+            fam['in_domain'] += 1
+            fam['by_shape'][c['shape']] = fam['by_shape'].get(c['shape'], 0) + 1
+            fam['by_start'][c['start']] = fam['by_start'].get(c['start'], 0) + 1
+            for k in c['cc_kinds']:
+                fam['by_constraint_kind'][k] = fam['by_constraint_kind'].get(k, 0) + 1
+            if all(any(cc['code'] == 3 and cc['d'] == d for cc in c['ccs']) for d in (0, 1)):
+                fam['alignment_variables_in_both_dims'] += 1
         pairs, boxes = obligations(c)
         t = [TOL.numerator, TOL.denominator, GRID, c['n']]
         for q in r['R']:
@@ -404,17 +649,28 @@ def run(tier):
         'the hypothesis of nonoverlap_step_preserved ("the new coordinates satisfy the generated constraints to 1e-10") is property C01 for the projection',
         'makeFeasible() establishing Sep initially and the descent never flagging a non-overlap constraint are validated on real runs only; '
         'V-domain: nothing reported unsatisfiable (as the property says)',
-        'V-runs: final rectangles rounded to 2^-20; checker tolerance 1e-3 + 4*2^-20']
+        'V-runs: final rectangles rounded to 2^-20; checker tolerance 1e-3 + 4*2^-20',
+        'family clusters+cc: the user constraints are derived from a grid witness layout (cluster_witness) that is non-overlapping and respects '
+        'the hierarchy with its padding and margins, so they admit a non-overlapping layout; runs that report a constraint unsatisfiable are '
+        'outside the domain as everywhere',
+        'variable layout correspondence: the cluster tree handed to the model is built by the OCaml driver from the parent indices in the order '
+        'of addChildCluster calls; variables are identified by object identity in the harness (Cluster::vXMin.., AlignmentConstraint::variable)']
     cpp = C.build_harness('c08_no', ['libcola', 'libvpsc'], 'exc')
     ml = C.ocaml_build('c08model', 'C08model.v', 'c08_driver.ml', 'c08_model.ml')
     ncorr = 1500 if tier == 'quick' else 12000
     nlay = 400 if tier == 'quick' else 3000
+    ncc = 250 if tier == 'quick' else 2000
     cases, diffs, hist, ntriv, samples = correspondence(rng.fork(), ncorr, cpp, ml)
-    lcases, viols, stats = layouts(rng.fork(), nlay, cpp, ml)
+    lcases, viols, stats = layouts(rng.fork(), nlay, cpp, ml, ncc=ncc)
+    vdiffs, vstats = varlayout_correspondence([c for c in lcases if c.get('kind') in ('clusters', 'clusters+cc') or c.get('ccs')], cpp, ml)
+    diffs = diffs + vdiffs
     real = 0
     for v in viols:
         if v.get('machinery'):
             continue
+        if vdiffs and (v.get('case') or {}).get('clusters'):
+            d0 = vdiffs[0]
+            v['see_also_variable_layout_disagreement'] = {'count': len(vdiffs), 'first': {k: d0.get(k) for k in ('dim', 'line', 'implementation', 'model', 'replay')}}
         fp = v.pop('fingerprint', None)
         if res.violation(v, fingerprint=fp):
             real += 1
@@ -432,8 +688,9 @@ def run(tier):
         'distinct_nontrivial': ntriv + stats['in_domain'],
         'rule': 'correspondence: generated lists that are non-empty; V: layouts in the domain (nothing reported unsatisfiable, returned normally)',
         'exhaustive': False, 'samples': samples,
-        'traces_validated_against_impl': sum(hist.values()),
+        'traces_validated_against_impl': sum(hist.values()) + vstats['lines_compared'],
         'correspondence': {'cases': len(cases), 'lists_compared': sum(hist.values()), 'disagreements': len(diffs), 'histogram': hist},
+        'variable_layout_correspondence': vstats,
         'layout_validation': stats})
     return res.finish()
 
@@ -467,9 +724,11 @@ META = {
                 '(node/cluster) separation => sibling member boxes disjoint / non-member outside. PARTIAL: makeFeasible() establishing the invariant, '
                 'the solver satisfying the constraints (C01) without flagging any, and the existence of a separating constraint for every sibling '
                 'cluster pair in the final layout are validated on real makeFeasible()+run() results by extracted checkers proved equivalent to the '
-                'declarative conditions.',
+                'declarative conditions. Variable index layout: the cluster variable ids stored in the containment constraints point at that cluster\'s '
+                'own boundary variables in the variable list built before every projection, for any user constraints in either dimension '
+                '(C08_stored_id_points_at_cluster; model tied by the `vars` correspondence).',
         'design_ref': 'DESIGN.md 5.8'},
-    'level_note': 'Trusted: Coq kernel; hand-written models NonOverlapModel.v / ContainmentModel.v (tie = exact comparison of generated constraint multisets with '
+    'level_note': 'Trusted: Coq kernel; hand-written models NonOverlapModel.v / ContainmentModel.v / VarLayoutModel.v (tie = exact comparison of generated constraint multisets with '
                   'the compiled code on random dyadic rectangle sets, groups, exemptions, clusters, every run); extraction, OCaml/C++/Python drivers; '
                   'Rectangle borders 0; exact-rational model of binary64. No axioms. Domain of the V-run as in the property: nothing reported unsatisfiable.',
     'technique': 'Coq proof over hand-written models + exact generator correspondence + extracted verified checkers on real layouts',
